@@ -226,6 +226,8 @@ pub fn sections() -> Vec<Box<dyn Section>> {
             strategy: Box::new(|_| {
                 prop_oneof![
                     2 => gtext(0),
+                    1 => (crate::chars::gliteral(), proptest::sample::select(&["", " ", "\0", "x", "İ", "S"][..]), any::<bool>())
+                        .prop_map(|(l, g, front)| if front { format!("{g}{l}") } else { format!("{l}{g}") }),
                     2 => (proptest::sample::select(KNOWN_TYPES), gtext(0), any::<bool>())
                         .prop_map(|(n, t, front)| if front { format!("{t}{n}") } else { format!("{n}{t}") }),
                     1 => proptest::collection::vec(proptest::sample::select(ALPHABET), 0..=7).prop_map(|v| v.into_iter().collect::<String>()),
